@@ -251,7 +251,8 @@ fn drive(m: &BTreeMap<String, String>, make: impl Fn(usize, usize) -> Box<dyn It
             let viol = Arc::clone(&viol);
             let samples = Arc::clone(&samples);
             let (seqs, steps, nontrivial) = (&seqs, &steps, &nontrivial);
-            s.spawn(move || {
+            // same stack budget as the shell's main thread has
+            let _ = std::thread::Builder::new().stack_size(64 << 20).spawn_scoped(s, move || {
                 let rt = new_runtime();
                 for seq in it {
                     let names: Vec<&str> = seq.iter().map(|o| OPS[*o as usize]).collect();
@@ -283,6 +284,7 @@ fn drive(m: &BTreeMap<String, String>, make: impl Fn(usize, usize) -> Box<dyn It
                         }
                     }
                 }
+                watch.finish(t);
             });
         }
     });
